@@ -449,6 +449,10 @@ func (p *prop) Generate(rng *core.Rand, tier string, emit func(string)) {
 	for i := 0; i < nh; i++ {
 		emit(genHist(rng))
 	}
+	// the CLI side: address resolution and the request `caddy stop|reload` sends, against the real endpoint
+	for i := 0; i < nh*6; i++ {
+		emit(genCli(rng))
+	}
 	nload := n / 25
 	for i := 0; i < n; i++ {
 		emit(p.genCase(rng, false))
